@@ -1,6 +1,7 @@
 package c15
 
 import (
+	"encoding/json"
 	"fmt"
 	"sort"
 
@@ -16,6 +17,28 @@ type ValCase struct {
 	BackendsAbsent bool // multi: backends sub-message absent
 	Edits          []Edit
 	Multiline      bool // text form layout
+	// Twin is the well-formed configuration as it was just before the invalidating edits (nil when
+	// there are none): it is validated between two presentations of the broken configuration.
+	Twin *Twin
+}
+
+// Twin is the well-formed state a broken configuration was derived from.
+type Twin struct {
+	Logs     []RawLog
+	Backends []RawBackend
+}
+
+// snapshot deep-copies the current state (the edits mutate through pointers).
+func (c *ValCase) snapshot() *Twin {
+	b, err := json.Marshal(Twin{Logs: c.Logs, Backends: c.Backends})
+	if err != nil {
+		panic(err)
+	}
+	var tw Twin
+	if err := json.Unmarshal(b, &tw); err != nil {
+		panic(err)
+	}
+	return &tw
 }
 
 func (c *ValCase) record(name, verdict, scope string, log int) {
@@ -233,7 +256,9 @@ func frozen(c *ValCase) []int    { return logsWhere(c, func(l *RawLog) bool { re
 
 // genuine frozen logs with their public key in place: the STH rules can be exercised in isolation
 func frozenIntact(c *ValCase) []int {
-	return logsWhere(c, func(l *RawLog) bool { return l.STH != nil && l.STH.Mut == "" && l.STH.RootLen == 32 && l.Pub != nil && l.Pub.Mut == "" })
+	return logsWhere(c, func(l *RawLog) bool {
+		return l.STH != nil && l.STH.Mut == "" && l.STH.RootLen == 32 && l.Pub != nil && l.Pub.Mut == ""
+	})
 }
 
 func sthMut(name, mut string) entry {
@@ -316,7 +341,7 @@ var invalidCatalogue = []entry{
 		c.Logs[i].STH.RootLen = rapid.SampledFrom([]int{31, 33, 0, 1, 16, 64}).Draw(t, "root-len")
 	}},
 	{name: "window-inverted", scope: "log", targets: allLogs, apply: func(t *rapid.T, c *ValCase, i int) {
-		lo, hi := drawWindow(t, "inv") // includes inversions inside one second and across adjacent seconds
+		lo, hi := drawWindow(t, "inv")              // includes inversions inside one second and across adjacent seconds
 		c.Logs[i].Start, c.Logs[i].Limit = &hi, &lo // start strictly after limit
 	}},
 	{name: "window-start-invalid", scope: "log", targets: allLogs, apply: func(t *rapid.T, c *ValCase, i int) {
@@ -537,6 +562,9 @@ func genVal(t *rapid.T) ValCase {
 		}, "valid-edit")
 	}
 	ni := rapid.SampledFrom([]int{0, 0, 0, 0, 1, 1, 1, 1, 2, 2}).Draw(t, "ninvalid")
+	if ni > 0 {
+		c.Twin = c.snapshot()
+	}
 	nstruct := 0
 	for k := 0; k < ni; k++ {
 		if rapid.IntRange(0, 2).Draw(t, "structural") == 0 {
